@@ -5009,6 +5009,7 @@ class Symbol:
                             f"{escape(self.name_and_loc)} (by {escape(src.name_and_loc)}) "
                             f"is not a valid base {base} number."
                         )
+                        self._has_active_indirect_set = False
                     break
             else:
                 self._has_active_indirect_set = False
@@ -5171,6 +5172,7 @@ class Symbol:
                             f"indirectly set value {candidate_val.str_value} on "
                             f"{escape(self.name_and_loc)} (by {escape(src.name_and_loc)}) is not a valid float."
                         )
+                        self._has_active_indirect_set = False
                     break
             else:
                 self._has_active_indirect_set = False
